@@ -35,6 +35,14 @@ FOREIGN = ["x", "t", "time", "state", "tm2", "initialcall", "Tm", "state_time", 
 POOL = ["n1", "n2", "n3", "n4", "n5", "n6", "_p1", "_p2"]     # a leading underscore is a legal state name
 
 
+class _Unprintable:
+    """An argument that cannot describe itself (whatever is passed, a direct call is refused with IllegalCallError)."""
+
+    def __repr__(self):
+        raise RuntimeError("vf: this object cannot be printed")
+    __str__ = __repr__
+
+
 def shards(pid, tier, seed):
     if tier == "quick":
         return [{"mode": "exhaustive"}] + [{"mode": "hier", "n": 800} for _ in range(4)]
@@ -111,7 +119,7 @@ def run_item(acc, item):
         acc.ev("legal-signature-accepted")
         # direct call of a state method
         for call in (lambda: m.n1(), lambda: m.n1(1.0, 2.0, True), lambda: cls.n1(m), lambda: m.n1(tm=0.0),
-                     lambda: m.n1(initial_call=True, state_tm=1.0)):
+                     lambda: m.n1(initial_call=True, state_tm=1.0), lambda: m.n1(_Unprintable()), lambda: m.n1(tm=_Unprintable())):
             acc.checks += 1
             try:
                 call()
